@@ -7,7 +7,7 @@ ASSUMPTIONS = ['the two lambdas are lifted textually from the current src/main.c
 SN = {'STOREPROOF_SANITIZE_SNIPPET': ('src/security/StoreProof.cpp', 'sanitize_filename_hint'),
       'CLI_SANITIZE_SNIPPET': ('src/main.cpp', r're:auto sanitize_filename = \[\]\(const std::string& candidate\) \{'),
       'NODE_SANITIZE_SNIPPET': ('src/core/Node.cpp', r're:if \(original_name\.has_value\(\)\) \{')}
-R = {r'^_ZNKSt10filesystem7__cxx114path8filenameEv$': 'h_path_filename', r'^_ZNSt10filesystem7__cxx114path14_M_split_cmptsEv$': 'h_path_split_stub'}
+R = {r'^_ZNKSt10filesystem7__cxx114path8filenameEv$': 'h_path_filename', r'^_ZNSt10filesystem7__cxx114path14_M_split_cmptsEv$': 'h_path_split_stub', r'?^_ZNKSt10filesystem7__cxx114path9extensionEv$': 'h_path_extension'}
 def jobs(tier):
     out = []
     maxlen = 3 if tier == 'quick' else 4
